@@ -246,6 +246,10 @@ def bio_pair_distance(paths, i, j):
 
 def check_leaves(o, tree, n, clause):
     """every index 0..n-1 is exactly one leaf; Tree.leaves is indexed by reference index."""
+    from biotite.sequence.phylo import Tree
+
+    if not o.check(isinstance(tree, Tree), clause, lambda: f"a {type(tree).__name__} was returned instead of a Tree"):
+        return False
     leaves_seen = sorted(x.index for x in bio_nodes(tree.root) if x.is_leaf())
     ok = o.check_eq(leaves_seen, list(range(n)), clause, "leaf indices found by walking the tree")
     ok = o.check_eq(len(tree), n, clause, "len(tree)") and ok
@@ -1280,7 +1284,78 @@ def run_invalid(case):
 
 
 # --------------------------------------------------------------------------
+# clustering of many taxa (cluster sizes beyond 8 and 16 bit counters need > 256 members)
+# --------------------------------------------------------------------------
+def st_cluster_large(tier):
+    top = 420 if tier == "quick" else 900
+    return st.fixed_dictionaries(
+        {
+            "group": st.integers(230, top - 40),  # taxa that form one tight group
+            "rest": st.integers(2, 40),  # scattered taxa
+            "seed": st.integers(0, 2**31 - 1),
+            "dtype": st.sampled_from(["float64", "float32"]),
+            "layout": st.sampled_from(["c", "f", "strided"]),
+            "method": st.sampled_from(["upgma", "upgma", "nj"]),
+        }
+    )
+
+
+def run_cluster_large(case):
+    from biotite.sequence.phylo import neighbor_joining, upgma
+
+    o = Outcome()
+    nbig = case["group"]
+    n = nbig + case["rest"]
+    rng = np.random.default_rng(case["seed"])
+    pts = np.concatenate([rng.normal(0.0, 0.05, size=(nbig, 3)), rng.uniform(-50.0, 50.0, size=(n - nbig, 3))])
+    pts = pts[rng.permutation(n)]
+    d = np.sqrt(((pts[:, None, :] - pts[None, :, :]) ** 2).sum(axis=2))
+    np.fill_diagonal(d, 0.0)
+    dm = _layout(d.astype(case["dtype"]), case["layout"])
+    d = np.array(dm, dtype=np.float64)
+    o.label("method=" + case["method"], "group>=256" if nbig >= 256 else "group<256", "layout=" + case["layout"])
+    o.mark_nontrivial(nbig >= 256)
+    if case["method"] == "nj":
+        tree = neighbor_joining(dm)
+        check_leaves(o, tree, n, "every_index_exactly_one_leaf")
+        return o
+    tree = upgma(dm)
+    if not check_leaves(o, tree, n, "every_index_exactly_one_leaf"):
+        return o
+    root = CNode(tree.root, None)
+    for c in root.walk():
+        if not c.children:
+            continue
+        if not o.check(len(c.children) == 2, "upgma_tree_is_binary", f"a node with {len(c.children)} children"):
+            return o
+        # float32 running means: the error grows with the number of merges below the node
+        tol = (64 + 8 * len(c.leaves)) * EPS32 * float(d[np.ix_(c.leaves, c.leaves)].max()) + TINY
+        lo, hi = min(c.leaf_dists), max(c.leaf_dists)
+        o.check(hi - lo <= 2 * tol, "upgma_ultrametric", lambda: f"node over {len(c.leaves)} leaves: leaf depths {lo!r} .. {hi!r} (tol {tol:g})")
+        a, b = c.children
+        mean = float(np.mean(d[np.ix_(a.leaves, b.leaves)]))
+        got = (lo + hi) / 2
+        o.check(
+            abs(got - mean / 2) <= tol,
+            "upgma_height_is_half_average_linkage",
+            lambda: f"merge of clusters with {len(a.leaves)} and {len(b.leaves)} leaves: height {got!r}, mean inter-cluster distance / 2 = {mean / 2!r} (tol {tol:g})",
+        )
+        if len(o.violations) > 3:
+            break
+    return o
+
+
+# --------------------------------------------------------------------------
 SUBS = [
+    Sub(
+        "cluster_large",
+        st_cluster_large,
+        run_cluster_large,
+        quick=48,
+        thorough=600,
+        rule="one tight group of >= 256 taxa plus scattered ones (a cluster passes 256 members while others remain)",
+        clauses="232..420 (thorough 900) taxa: every index one leaf; UPGMA binary, ultrametric, height = half average linkage",
+    ),
     Sub(
         "upgma",
         st_upgma,
